@@ -66,12 +66,13 @@ def gaps : List (String × SrcSet) := [
   ("small-float", .ofString "s"), ("small-map", .ofString "s"), ("small-record", .ofString "s"),
   ("format-email", .ofString "s"), ("format-regex", .ofString "s"), ("format-starts", .ofString "s"),
   ("format-includes", .ofString "s"), ("format-json", .ofString "s"), ("multiple-int", .ofString "s"), ("multiple-float", .ofString "s"),
+  ("small-set", .ofString "s"), ("format-lowercase", .ofString "s"), ("small-string-length", .ofString "s"), ("small-int-positive", .ofString "s"),
   -- container / union / literal / network-format schemas ignore their own message for their type issue
   ("type-object", .ofString "s"), ("type-slice", .ofString "s"), ("type-array", .ofString "s"), ("type-record", .ofString "s"),
   ("type-map", .ofString "s"), ("type-literal", .ofString "s"), ("union", .ofString "s"), ("union-discriminated", .ofString "s"),
-  ("format-ipv4-type", .ofString "s"), ("format-url-type", .ofString "s"),
+  ("format-ipv4-type", .ofString "s"), ("format-url-type", .ofString "s"), ("type-set", .ofString "s"), ("union-xor", .ofString "s"),
   -- issues finalised with a fresh ParseContext: the per-parse map is lost as well
-  ("small-slice", .ofString "sp"), ("big-slice", .ofString "sp"), ("big-array-length", .ofString "sp"),
+  ("small-slice", .ofString "sp"), ("big-slice", .ofString "sp"), ("small-slice-nonempty", .ofString "sp"), ("big-array-length", .ofString "sp"),
   ("keys-strict-object", .ofString "sp"), ("key-record", .ofString "p"), ("element-array", .ofString "p"),
   -- issues raised with a preset message: nothing is consulted
   ("type-field-missing", .ofString "spgl"), ("value-enum", .ofString "pgl"),
